@@ -81,6 +81,12 @@ func specs() []*Spec {
 			Rule:  "E1 enumeration on both limb layouts (default 5x51, force32bit 10x25.5, GOARCH=386): class R = full product over all limbs of a per-limb alphabet {0,mask,1,mask-1,(19)} (64-bit: 4 values quick / 5 thorough = 1024 / 3125 elements; 32-bit: 2 values = 1024 elements plus all vectors with <= 2 deviations from 3 base patterns over a 10-value alphabet) plus the representations of 0,1,p-1,p,p+1,2^255-1 and the documented multiplication worst case; Add/Sub/AddReduce/SubReduce/Mul on every ordered pair of R (dense), in-place forms; classes B1a/B1s/B2/N derived by running the real basic / after-basic / negation operations on R extremes (only the operand classes ge25519 feeds); Mul on all 25 class pairs, after-basic forms on their caller classes; Square, Neg, Copy, Contract (canonical value for every representation), Expand (bit 255 ignored) on every element of every class; SquareTimes(1,2,5,10,20,50,100), Recip, PowTwo252m3 (also in place) on subsets; SwapConditional(0/1) on all subset pairs; Expand/Contract on 2^k, 2^k+-1 and the 64 largest 255-bit strings. Oracle: exact residue via math/big plus the limb-bound postcondition of reduced outputs.",
 			Assume: []string{"math/big of the Go toolchain"},
 		},
+		{
+			ID:    "C19",
+			Units: []Unit{{Pkg: "internal/modm", Job: "C19", Quick: layoutCfg, Thorough: layoutCfg}},
+			Rule:  "E1 enumeration on both limb layouts (+ GOARCH=386): Expand on 64-byte strings k*L+delta for k in {0,1,2,2^j,2^j+-1 (j<=259), floor(2^e/L)+{-2..1} for e in {512,264,256,253,252}} x delta in {0,1,2,L-2,L-1}, 2^j+-1 boundaries, all 3^8 word-class strings; 32-byte strings kL+delta (k<=16), 2^j, 2^j-1, word classes around the words of L; 16-byte strings and other lengths (no reduction below 32 bytes); ExpandRaw on the nibble alphabet; Add and Mul on every ordered pair of the scalar alphabet A_s (0,1,2,L-1,L-2,(L+-1)/2,2^j,2^j-1,limb-class values) with canonical-limb postcondition and the callers' aliasing forms; ContractWindow4 on every nibble-pattern scalar below 2^255 (raw, clamped, reduced): sum d_i 16^i == s, d_i in [-8,8], d_63 in [0,8]; ContractSlidingWindow(5,7) on d*2^i (d odd < 128), runs of ones at offsets 0/1/124/251, periodic patterns, A_s: sum d_i 2^i == s, digits zero or odd within +-(2^(w-1)-1). Oracle: math/big.",
+			Assume: []string{"math/big of the Go toolchain"},
+		},
 		// NEXT-SPEC
 		{
 			ID: "C04",
